@@ -172,10 +172,13 @@ CLAIMED = {
         text="Lean theorems: `reflect` models FcpV2.reflection() and every reflection() method (flattened type chains, str(value) of extension values, "
              "optional unit/range/meta); whenever the record fits the reflection schema (wf reflTy, decidable) the Python codec round trip returns it "
              "(from the C01 refinement); the type chain determines the type (unchain ∘ chain = id for non-numeric leaves); the record lists every "
-             "struct/enum/binding/service. reflection.fcp is translated to Lean on every run and the kernel re-checks that struct Fcp resolves to the "
+             "struct/enum/binding/service; `C12_in_range_exact`: wf reflTy (reflect S) = InReflRange S, the bounds spelt out on the schema (ids in u32, "
+             "enumerators and positions in i32, version in u16, 7-bit texts, lists < 2^32), so `C12_lossless_in_range` states losslessness for exactly "
+             "that class, and the two recorded findings (negative id, enumerator beyond i32) are kernel-checked ways of leaving it. reflection.fcp is translated to Lean on every run and the kernel re-checks that struct Fcp resolves to the "
              "hand-written reflTy. Tie: generated schemas over every node kind, real record vs model record, serde round trip, bytes vs canonical.",
-        note="Source positions are inputs of the model; the guard wf reflTy (reflect S) is evaluated per schema rather than derived from a simpler "
-             "range predicate; negative field ids are a recorded finding; strings are 7-bit.",
+        note="Source positions are inputs of the model; recorded findings: negative field ids (u32), enumerators outside i32, enumerator -2^31 (the decoder's signed-min defect); strings "
+             "are 7-bit. 25 % of the schemas are spread over module files, and the reflected declarations are compared with the generator's own "
+             "description (not only with the parsed tree).",
         technique="Lean 4 proof (record model + codec round trip + chain inverse) + translated reflection schema + differential check",
         ref="DESIGN.md section 8, C12"),
     "C09": dict(
